@@ -10,7 +10,7 @@ generic entry valid for a <= j < b.
 """
 from .absint import *
 from .kmodel import KModel, ax_atom, data_atom, idx_name, AX0_ENUM
-from .poly import Rat, Poly
+from .poly import Rat, Poly, reindex
 
 
 def is_axis0(v):
@@ -188,12 +188,27 @@ class SModel(KModel):
             return a0
         if name == 'std::iter::Iterator::rev' and isinstance(a0, Enum) and a0.adt == 'std::ops::Range':
             return Obj('revrange', range=a0)
-        if name == 'std::iter::Iterator::zip' and isinstance(a0, Obj) and a0.kind == 'rowiter':
-            b = deref_all(args[1])
-            if isinstance(b, Obj) and b.kind == 'rowiter':
-                return Obj('rowiter', tree=('zip', a0.d['tree'], b.d['tree']))
-        if name == 'std::iter::Iterator::enumerate' and isinstance(a0, Obj) and a0.kind == 'rowiter':
-            return Obj('rowiter', tree=('enum', a0.d['tree']))
+        def as_rowiter(v):
+            v = deref_all(v)
+            if isinstance(v, Obj) and v.kind == 'rowiter':
+                return v
+            if isinstance(v, Obj) and v.kind == 'windows':
+                return Obj('rowiter', tree=('win', v.d['axis'], v.d['size']))
+            return None
+        if name == 'std::iter::Iterator::zip' and as_rowiter(a0) is not None:
+            b = as_rowiter(args[1])
+            if b is not None:
+                return Obj('rowiter', tree=('zip', as_rowiter(a0).d['tree'], b.d['tree']))
+        if name == 'std::iter::Iterator::enumerate' and as_rowiter(a0) is not None:
+            return Obj('rowiter', tree=('enum', as_rowiter(a0).d['tree']))
+        if name == 'std::iter::Iterator::skip' and as_rowiter(a0) is not None:
+            k = deref_all(args[1])
+            if isinstance(k, Num) and k.const() is not None and k.const() >= 0:
+                return Obj('rowiter', tree=('skip', as_rowiter(a0).d['tree'], int(k.const())))
+            raise Unsupported("skip by a non-literal count", e)
+        if name in ('std::iter::Iterator::for_each',) and as_rowiter(a0) is not None:
+            clo = args[1]
+            return self.iterate_rows(as_rowiter(a0).d['tree'], lambda elem: self.interp.apply(clo, [elem], e), e)
         if name == 'std::clone::Clone::clone' and isinstance(a0, Obj):
             if a0.kind == 'ddim':
                 return Obj('ddim', n=a0.d['n'])
@@ -228,6 +243,10 @@ class SModel(KModel):
         if isinstance(a0, Obj):
             k = a0.kind
             if k == 'data':
+                if last in ('axis_iter', 'outer_iter') and not a0.d['idx']:
+                    if last == 'axis_iter' and not is_axis0(args[1]):
+                        raise Unsupported("axis_iter over an axis other than Axis(0) of the data", e)
+                    return Obj('rowiter', tree=('datarows', a0))
                 if last == 'raw_dim':
                     return Obj('ddim', n=self.n)
                 if last == 'ndim':
@@ -531,52 +550,90 @@ class SModel(KModel):
         return self.n
 
     # ------------------------------------------------------------------ loops: one inductive step
-    def _rowiter_elem(self, tree, j, lens, e):
+    def _rowiter_elem(self, tree, j, lens, e, off=0):
+        """element number j of the iterator described by `tree`; the lengths of its leaves (after skips) are collected in `lens`"""
         kind = tree[0]
         if kind == 'rows':
             a, mut = tree[1], tree[2]
-            lens.append(a.d['hi'] - a.d['lo'])
+            lens.append(a.d['hi'] - a.d['lo'] - off)
             if mut:
-                return Obj('rowmut', a=a, i=j + a.d['lo'])
-            v = self.arr2_row(a, j)
+                return Obj('rowmut', a=a, i=j + off + a.d['lo'])
+            v = self.arr2_row(a, j + off)
             if v is None:
-                raise Unsupported("read of row %s of %s: not known which write reaches it" % (idx_name(j), a.d['t'].name), e)
+                raise Unsupported("read of row %s of %s: not known which write reaches it" % (idx_name(j + off), a.d['t'].name), e)
             return self.lanes(v)
+        if kind == 'datarows':
+            lens.append(self.n - off)
+            d = tree[1]
+            at = data_atom(d.d['name'], [j + off])
+            self.reads.append(str(at))
+            return Obj('lanes', r=at)
+        if kind == 'win':
+            lens.append(self.len_of_axis() - tree[2] + 1 - off)
+            return Obj('window', axis=tree[1], i=j + off, size=tree[2])
+        if kind == 'skip':
+            return self._rowiter_elem(tree[1], j, lens, e, off + tree[2])
         if kind == 'zip':
-            return Tup([self._rowiter_elem(tree[1], j, lens, e), self._rowiter_elem(tree[2], j, lens, e)])
+            return Tup([self._rowiter_elem(tree[1], j, lens, e, off), self._rowiter_elem(tree[2], j, lens, e, off)])
         if kind == 'enum':
-            return Tup([Num(j), self._rowiter_elem(tree[1], j, lens, e)])
+            if off:
+                raise Unsupported("skip after enumerate", e)
+            return Tup([Num(j), self._rowiter_elem(tree[1], j, lens, e, off)])
         raise Unsupported("iterator adaptor %r" % (kind,), e)
+
+    @staticmethod
+    def _shortest(lens, e):
+        """std's zip stops at the shortest operand: the minimum of lengths of the form n - c"""
+        best = lens[0]
+        for l in lens[1:]:
+            d = (l - best)
+            if not (d.is_poly() and d.as_poly().is_const()):
+                raise Unsupported("std Iterator::zip over operands whose lengths %s cannot be ordered" % [str(x) for x in lens], e)
+            if d.as_poly().const_value() < 0:
+                best = l
+        return best
+
+    def iterate_rows(self, tree, run_body, e):
+        """a loop / for_each over row iterators (std adaptors zip, skip, enumerate over axis_iter(_mut), windows): one inductive step
+        with symbolic position j; rows written at position j + c become a generic entry over the index range they cover"""
+        self.loop_vars += 1
+        var = 'j%d' % self.loop_vars
+        j = Rat.atom(var)
+        lens = []
+        elem = self._rowiter_elem(tree, j, lens, e)
+        trip = self._shortest(lens, e)
+        start, end = Rat.const(0), trip
+        snapshot = [(t, dict(t.store)) for t in self.arrays]
+        self.cur_loop = {'var': var, 'lo': start, 'hi': end - 1, 'rev': False, 'where': line_of(e)}
+        self.loops = getattr(self, 'loops', []) + [self.cur_loop]
+        run_body(elem)
+        for t, before in snapshot:
+            for k, (idx, val) in list(t.store.items()):
+                if k not in before or before[k][1] is not val:
+                    if var in idx.atoms():
+                        del t.store[k]
+                        if k in before:
+                            t.store[k] = before[k]
+                        c = idx - j
+                        if not (c.is_poly() and c.as_poly().is_const()):
+                            raise Unsupported("row %s written from iterator position %s" % (idx_name(idx), var), e)
+                        # express the entry by the array index it is written at: position = index - c
+                        val2 = reindex(val, {var: j - c}) if not c.is_zero() else val
+                        t.write_generic(var, start + c, end - 1 + c, val2, 'loop ' + line_of(e))
+                        t.generic[-1]['idx'] = j
+        self.cur_loop = None
+        return Unit()
 
     def for_loop(self, iterable, pat, body, frame, e):
         it = deref_all(iterable)
+        if isinstance(it, Obj) and it.kind == 'windows':
+            it = Obj('rowiter', tree=('win', it.d['axis'], it.d['size']))
         if isinstance(it, Obj) and it.kind == 'rowiter':
-            # a loop over the rows of one or several lane arrays (std iterator adaptors): one inductive step with symbolic row j
-            self.loop_vars += 1
-            var = 'j%d' % self.loop_vars
-            j = Rat.atom(var)
-            lens = []
-            elem = self._rowiter_elem(it.d['tree'], j, lens, e)
-            if any(not (l == lens[0]) for l in lens):
-                raise Unsupported("std Iterator::zip over row iterators of different lengths %s truncates silently" % [str(l) for l in lens], e)
-            if not self.interp.match_pat(pat, ValPlace(elem), frame):
-                raise Unsupported("loop pattern over rows", e)
-            start, end = Rat.const(0), lens[0]
-            snapshot = [(t, dict(t.store)) for t in self.arrays]
-            self.cur_loop = {'var': var, 'lo': start, 'hi': end - 1, 'rev': False, 'where': line_of(e)}
-            self.loops = getattr(self, 'loops', []) + [self.cur_loop]
-            self.interp.eval(body, frame)
-            for t, before in snapshot:
-                for k, (idx, val) in list(t.store.items()):
-                    if k not in before or before[k][1] is not val:
-                        if var in idx.atoms():
-                            del t.store[k]
-                            if k in before:
-                                t.store[k] = before[k]
-                            t.write_generic(var, start, end - 1, val, 'loop ' + line_of(e))
-                            t.generic[-1]['idx'] = idx
-            self.cur_loop = None
-            return Unit()
+            def run_body(elem):
+                if not self.interp.match_pat(pat, ValPlace(elem), frame):
+                    raise Unsupported("loop pattern over rows", e)
+                self.interp.eval(body, frame)
+            return self.iterate_rows(it.d['tree'], run_body, e)
         rev = False
         if isinstance(it, Obj) and it.kind == 'revrange':
             it = it.d['range']
